@@ -126,7 +126,23 @@ def errorCodeDefaultAddTo (m : Msg) (code : Nat) : Msg × Option SetErr :=
 def unknownAddTo (m : Msg) (ts : List Nat) : Msg × Option SetErr :=
   (m.add attrUnknownAttributes (ts.flatMap put16), none)
 
-/-! ### getters -/
+/-! ### getters
+
+  Reads from the attribute value are *checked* (`rd16`, `rdByte`, `from4`): an out-of-range index or slice bound is
+  the result `.panic`, never a default value. The guards of the Go code are what makes `.panic` unreachable. -/
+
+inductive GetRes (α : Type) where
+  | ok (a : α)
+  | err (e : GetErr)
+  | panic
+deriving DecidableEq, Repr
+
+/-- `bin.Uint16(v[off:off+2])` -/
+def rd16 (v : Bytes) (off : Nat) : Option Nat := if off + 2 ≤ v.length then some (be16 (v.drop off)) else none
+/-- `v[i]` -/
+def rdByte (v : Bytes) (i : Nat) : Option UInt8 := if i < v.length then some (v.getD i 0) else none
+/-- `v[n:]` -/
+def sliceFrom (v : Bytes) (n : Nat) : Option Bytes := if n ≤ v.length then some (v.drop n) else none
 
 structure Addr where
   ip : Bytes
@@ -134,59 +150,79 @@ structure Addr where
 deriving DecidableEq, Repr
 
 /-- xoraddr.go `XORMappedAddress.GetFromAs` (as repaired: the length check precedes the first index) -/
-def xorGetFromAs (m : Msg) (attr : Nat) : Except GetErr Addr :=
+def xorGetFromAs (m : Msg) (attr : Nat) : GetRes Addr :=
   match m.get attr with
-  | none => .error .notFound
+  | none => .err .notFound
   | some value =>
-    if value.length ≤ 4 then .error .eof else
-    let family := be16 value
-    if family ≠ familyIPv6 ∧ family ≠ familyIPv4 then .error .family else
+    if value.length ≤ 4 then .err .eof else
+    match rd16 value 0 with
+    | none => .panic
+    | some family =>
+    if family ≠ familyIPv6 ∧ family ≠ familyIPv4 then .err .family else
     let ipLen := if family = familyIPv6 then 16 else 4
-    if ¬ checkOverflow (value.length - 4) ipLen then .error .overflow else
-    let port := be16 (value.drop 2) ^^^ (magicCookie >>> 16)
-    let xorValue := put32 magicCookie ++ m.tid
-    let x := xorBytes (value.drop 4) xorValue
-    -- a.IP was zeroed to ipLen bytes; XORBytes overwrites the first min(len) bytes
-    .ok ⟨x ++ Msg.zeros (ipLen - x.length), port⟩
+    match sliceFrom value 4, rd16 value 2 with
+    | some rest, some xport =>
+      if ¬ checkOverflow rest.length ipLen then .err .overflow else
+      let port := xport ^^^ (magicCookie >>> 16)
+      let xorValue := put32 magicCookie ++ m.tid
+      let x := xorBytes rest xorValue
+      -- a.IP was zeroed to ipLen bytes; XORBytes overwrites the first min(len) bytes
+      .ok ⟨x ++ Msg.zeros (ipLen - x.length), port⟩
+    | _, _ => .panic
 
 /-- addr.go `MappedAddress.GetFromAs` -/
-def mappedGetFromAs (m : Msg) (attr : Nat) : Except GetErr Addr :=
+def mappedGetFromAs (m : Msg) (attr : Nat) : GetRes Addr :=
   match m.get attr with
-  | none => .error .notFound
+  | none => .err .notFound
   | some value =>
-    if value.length ≤ 4 then .error .eof else
-    let family := be16 value
-    if family ≠ familyIPv6 ∧ family ≠ familyIPv4 then .error .family else
+    if value.length ≤ 4 then .err .eof else
+    match rd16 value 0 with
+    | none => .panic
+    | some family =>
+    if family ≠ familyIPv6 ∧ family ≠ familyIPv4 then .err .family else
     let ipLen := if family = familyIPv6 then 16 else 4
-    let port := be16 (value.drop 2)
-    let c := (value.drop 4).take ipLen     -- copy(a.IP, value[4:])
-    .ok ⟨c ++ Msg.zeros (ipLen - c.length), port⟩
+    match rd16 value 2, sliceFrom value 4 with
+    | some port, some rest =>
+      let c := rest.take ipLen     -- copy(a.IP, value[4:])
+      .ok ⟨c ++ Msg.zeros (ipLen - c.length), port⟩
+    | _, _ => .panic
 
 /-- textattrs.go `TextAttribute.GetFromAs` -/
-def textGetFromAs (m : Msg) (attr : Nat) : Except GetErr Bytes :=
+def textGetFromAs (m : Msg) (attr : Nat) : GetRes Bytes :=
   match m.get attr with
-  | none => .error .notFound
+  | none => .err .notFound
   | some v => .ok v
 
 /-- errorcode.go `ErrorCodeAttribute.GetFrom` -/
-def errorCodeGetFrom (m : Msg) : Except GetErr (Nat × Bytes) :=
+def errorCodeGetFrom (m : Msg) : GetRes (Nat × Bytes) :=
   match m.get attrErrorCode with
-  | none => .error .notFound
+  | none => .err .notFound
   | some value =>
-    if value.length < errorCodeReasonStart then .error .eof else
-    let cls := (value.getD 2 0).toNat
-    let number := (value.getD 3 0).toNat
-    .ok (w16 (w16 (cls * errorCodeModulo) + number), value.drop errorCodeReasonStart)
+    if value.length < errorCodeReasonStart then .err .eof else
+    match rdByte value 2, rdByte value 3, sliceFrom value errorCodeReasonStart with
+    | some cls, some number, some reason =>
+      .ok (w16 (w16 (cls.toNat * errorCodeModulo) + number.toNat), reason)
+    | _, _, _ => .panic
 
-/-- pairs of bytes as 16-bit values -/
-def be16s : Bytes → List Nat
-  | a :: b :: t => u16 a b :: be16s t
-  | _ => []
+/-- the loop of `UnknownAttributes.GetFrom`: `for first < len(v) { v[first:first+2] ... }` -/
+def unknownLoop (v : Bytes) (first : Nat) (fuel : Nat) (acc : List Nat) : Option (List Nat) :=
+  match fuel with
+  | 0 => if first < v.length then none else some acc
+  | fuel + 1 =>
+    if first < v.length then
+      match rd16 v first with
+      | none => none
+      | some t => unknownLoop v (first + attrTypeSize) fuel (acc ++ [t])
+    else some acc
 
 /-- uattrs.go `UnknownAttributes.GetFrom` (as repaired) -/
-def unknownGetFrom (m : Msg) : Except GetErr (List Nat) :=
+def unknownGetFrom (m : Msg) : GetRes (List Nat) :=
   match m.get attrUnknownAttributes with
-  | none => .error .notFound
-  | some v => if v.length % attrTypeSize ≠ 0 then .error .badSize else .ok (be16s v)
+  | none => .err .notFound
+  | some v =>
+    if v.length % attrTypeSize ≠ 0 then .err .badSize else
+    match unknownLoop v 0 v.length [] with
+    | some l => .ok l
+    | none => .panic
 
 end Stun
